@@ -109,3 +109,11 @@ package outputstream
 //@   requires os != nil && os.messagesCache != nil && os.newMessage != nil && (forall k uint64 :: !(k in os.messagesCache))
 //@   ensures wf: result == nil ==> wfOS(os) && wfLast(os)
 //@   modifies *
+
+// ---------------------------------------------------------------------------
+// C20: lock discipline of the output stream.
+//@ guard OutputStream.lastseen by OutputStream.messagesMu
+//@ guard OutputStream.batch by OutputStream.messagesMu
+//@ guard OutputStream.messagesCache by OutputStream.cacheMu
+//@ func OutputStream.getUnlocked
+//@   requires locks-held: os.messagesMu.writerSem == 1 || os.messagesMu.readerSem >= 1
